@@ -281,6 +281,47 @@ func ExecBlock(client queue.Client, prevStateRoot []byte, block *types.Block, er
 	return detail, deltx, nil
 }
 
+// pooledSignatures fetches from the mempool the signatures of the transactions it
+// reported as existing, by position; a position is nil when the transaction (or the
+// whole answer) is not available, which makes the caller verify it.
+func pooledSignatures(client queue.Client, hashes [][]byte, exist []bool) []*types.Signature {
+	sigs := make([]*types.Signature, len(hashes))
+	req := &types.ReqTxHashList{}
+	var index []int
+	for i, ok := range exist {
+		if ok && i < len(hashes) {
+			req.Hashes = append(req.Hashes, string(hashes[i]))
+			index = append(index, i)
+		}
+	}
+	if len(index) == 0 {
+		return sigs
+	}
+	msg := client.NewMessage("mempool", types.EventTxListByHash, req)
+	if err := client.Send(msg, true); err != nil {
+		return sigs
+	}
+	reply, err := client.Wait(msg)
+	if err != nil {
+		return sigs
+	}
+	list, ok := reply.GetData().(*types.ReplyTxList)
+	if !ok || len(list.GetTxs()) != len(index) {
+		return sigs
+	}
+	for k, tx := range list.GetTxs() {
+		if tx != nil {
+			sigs[index[k]] = tx.GetSignature()
+		}
+	}
+	return sigs
+}
+
+func sameSignature(a, b *types.Signature) bool {
+	return a != nil && b != nil && a.GetTy() == b.GetTy() &&
+		bytes.Equal(a.GetPubkey(), b.GetPubkey()) && bytes.Equal(a.GetSignature(), b.GetSignature())
+}
+
 // PreExecBlock : pre exec block
 func PreExecBlock(client queue.Client, prevStateRoot []byte, block *types.Block, errReturn, sync, checkblock bool) (*types.BlockDetail, []*types.Transaction, error) {
 	//发送执行交易给execs模块
@@ -312,10 +353,13 @@ func PreExecBlock(client queue.Client, prevStateRoot []byte, block *types.Block,
 		unverifiedTxs := block.Txs
 		//区块中交易在mempool中已有存在情况，重新构造需要验签的交易列表
 		if replyData.ExistCount > 0 {
+			//交易哈希不包含签名, mempool中验过签的是mempool中的那份签名,
+			//区块中的交易只有签名与mempool中的一致时才可以跳过验签
+			pooled := pooledSignatures(client, checkReq.TxHashes, replyData.ExistFlags)
 			unverifiedTxs = make([]*types.Transaction, 0, len(block.Txs)-int(replyData.ExistCount))
 			for index, exist := range replyData.ExistFlags {
 				//只需要对mempool中不存在的交易验签
-				if !exist {
+				if !exist || !sameSignature(pooled[index], block.Txs[index].GetSignature()) {
 					unverifiedTxs = append(unverifiedTxs, block.Txs[index])
 				}
 			}
